@@ -94,6 +94,10 @@ def cases(tier):
     for c in base_cfgs(tier, True):
         for end in ends:
             cs.append(dict(c, end=end))
+    # the same at another time scale (one unit = 100 microseconds): end times within a millisecond of a component's time
+    for c in base_cfgs(tier, False)[::7]:
+        for end in (0.5, 2, 3.5):
+            cs.append(dict(c, end=end, unit_us=100))
     # long runs (hundreds of updates, steps from seconds to weeks)
     for c in base_cfgs(tier, False)[:: (6 if q else 2)]:
         tcs = [x for x in c["comps"] if x["kind"] == "T"]
